@@ -68,6 +68,10 @@ pub struct World {
 	pub max_held_addr: usize,
 	pub min_held_addr: usize,
 	/// C10: a flag to sample at the moment an exclusive hold is released (0 = none), and the samples
+	/// C10: while this thread WAITS in a blocking acquisition, the foreign holder may panic and poison this flag
+	/// (address of an AtomicBool, 0 = none); `env_poisoned` records that it did
+	pub env_poison_flag: usize,
+	pub env_poisoned: bool,
 	pub probe_flag: usize,
 	pub probe_samples: u8,
 	pub probe_all_set: bool,
@@ -100,6 +104,8 @@ impl World {
 			order_desc: false,
 			max_held_addr: 0,
 			min_held_addr: usize::MAX,
+			env_poison_flag: 0,
+			env_poisoned: false,
 			probe_flag: 0,
 			probe_samples: 0,
 			probe_all_set: true,
@@ -209,6 +215,18 @@ impl VState {
 		}
 	}
 
+	/// the thread really waits (a conflicting foreign hold exists): that holder may end its hold by panicking
+	fn env_may_poison_while_waiting(&self, waits: bool) {
+		let w = w();
+		if waits && w.env_poison_flag != 0 {
+			let p: bool = kani::any();
+			if p {
+				unsafe { (*(w.env_poison_flag as *const core::sync::atomic::AtomicBool)).store(true, core::sync::atomic::Ordering::Relaxed) };
+				w.env_poisoned = true;
+			}
+		}
+	}
+
 	fn note_blocking(&self) {
 		let w = w();
 		if w.order_check && w.held > 0 {
@@ -230,6 +248,7 @@ impl VState {
 		// a thread must never wait for a lock it holds itself (C01, last sentence)
 		assert!(self.mine.get() == NONE, "U_no_self_wait: blocking exclusive request on a lock this thread holds");
 		self.note_blocking();
+		self.env_may_poison_while_waiting(self.other.get() != NONE);
 		// the environment eventually releases (lock_api liveness, assumed)
 		self.other.set(NONE);
 		self.mine.set(EXCL);
@@ -278,6 +297,7 @@ impl VState {
 		self.log(OP_LOCK_S);
 		assert!(self.mine.get() == NONE, "U_no_self_wait: blocking shared request on a lock this thread holds");
 		self.note_blocking();
+		self.env_may_poison_while_waiting(self.other.get() == EXCL);
 		if self.other.get() == EXCL {
 			self.other.set(NONE);
 		}
